@@ -2,6 +2,7 @@ package main
 
 import (
 	"encoding/json"
+	"fmt"
 	"reflect"
 
 	"github.com/google/jsonschema-go/jsonschema"
@@ -54,6 +55,35 @@ func runDefaults(hdr Header, c any, src string) CaseResult {
 				json.RawMessage(wj), json.RawMessage(gj))
 			continue
 		}
+		// the same instance held in a TYPED map (map[string]map[string]any): same after-state, and the inserted
+		// values are independent objects (only when every top-level member, before and after, is an object)
+		if tm, ok := typedObjMap(ij); ok {
+			if _, ok2 := typedObjMap(wj); ok2 {
+				res.Evals++
+				err := rs.ApplyDefaults(&tm)
+				gj, _ := json.Marshal(tm)
+				var got any
+				json.Unmarshal(gj, &got)
+				if err != nil || !reflect.DeepEqual(got, want) {
+					fail("defaults-typed-map", map[string]any{"schema": json.RawMessage(text), "instance": json.RawMessage(ij), "held_as": "map[string]map[string]any"},
+						json.RawMessage(wj), fmt.Sprint(string(gj), " ", err))
+				} else {
+					seen := map[uintptr]string{}
+					for k, m := range tm {
+						if m == nil {
+							continue
+						}
+						p := reflect.ValueOf(m).Pointer()
+						if other, dup := seen[p]; dup {
+							fail("defaults-typed-map", map[string]any{"schema": json.RawMessage(text), "instance": json.RawMessage(ij), "held_as": "map[string]map[string]any"},
+								"every member its own object", "members "+other+" and "+k+" are the same map")
+							break
+						}
+						seen[p] = k
+					}
+				}
+			}
+		}
 		// history: a second application changes nothing
 		res.Evals++
 		if err := rs.ApplyDefaults(&v); err != nil || !reflect.DeepEqual(v, want) {
@@ -98,4 +128,22 @@ func runDefaults(hdr Header, c any, src string) CaseResult {
 	res.Nontrivial = changed || !wantOK
 	res.Sample = map[string]any{"schema": json.RawMessage(text), "validate_defaults": cm["vd"]}
 	return res
+}
+
+// typedObjMap decodes a JSON object whose members are all objects into map[string]map[string]any.
+func typedObjMap(doc string) (map[string]map[string]any, bool) {
+	var probe map[string]any
+	if json.Unmarshal([]byte(doc), &probe) != nil || probe == nil {
+		return nil, false
+	}
+	for _, v := range probe {
+		if _, ok := v.(map[string]any); !ok {
+			return nil, false
+		}
+	}
+	out := map[string]map[string]any{}
+	if json.Unmarshal([]byte(doc), &out) != nil {
+		return nil, false
+	}
+	return out, true
 }
